@@ -395,6 +395,8 @@ DictOK(o, abs) == o.err # "" \/ ~Has(o, "dict") \/
    \A id \in {d[1] : d \in abs} : \E i \in 1..Len(o.dict) : o.dict[i].t = id
 ObsOK(o) == o.err = "" /\ o.count = Len(o.docs) /\ DocSet(o.docs) = DocSet(o.byid)
                       /\ DocSet(o.sorted) = DocSet(o.docs) /\ Len(o.sorted) = Len(o.docs)
+                      \* the same search with scoring switched off, and its count aggregation
+                      /\ (Has(o, "none") => DocSet(o.none) = DocSet(o.docs) /\ Len(o.none) = Len(o.docs) /\ o.agg = o.count)
 TReaderOpen ==
   /\ Step("ReaderOpen")
   /\ rd' = [rd EXCEPT ![Ev.r] = [st |-> "open", epoch |-> root.epoch, ents |-> root.ents, n |-> Len(applied)]]
